@@ -133,6 +133,22 @@ def run(ctx: core.Ctx):
         ok2 = got2.shape == (n, n) and all(feq(got2[i, j], exp2[(col[i, 0], rowv[0, j])]) for i in range(n) for j in range(n))
         if not ok2:
             ctx.violation(f"{op}.compute/formula/broadcast", {"op": op}, "table", "differs", note="column x row broadcast differs from the table")
+        # one operand a scalar (Python float, numpy scalar, 0-d array), the other a vector - in both orders
+        vec = np.array(sorted(set(B)))
+        for sv in sorted(set(A)):
+            for label, sc in (("float", float(sv)), ("numpy-scalar", np.float64(sv)), ("0-d", np.array(float(sv)))):
+                for order in ("scalar-array", "array-scalar"):
+                    ctx.count(1)
+                    try:
+                        r = np.asarray(objs[op].compute(sc, vec) if order == "scalar-array" else objs[op].compute(vec, sc), dtype=float)
+                    except Exception as ex:
+                        ctx.violation(f"{op}.compute/mixed/{order}/{label}/raises-{type(ex).__name__}", {"op": op, "scalar": float(sv)}, "elementwise values", f"{type(ex).__name__}: {ex}")
+                        continue
+                    want = np.array([exp2[(float(sv), float(y))] if order == "scalar-array" else exp2[(float(y), float(sv))] for y in vec])
+                    if r.shape != want.shape or not np.array_equal(r, want, equal_nan=True):
+                        j = int(np.flatnonzero(~((r == want) | (np.isnan(r) & np.isnan(want))))[0]) if r.shape == want.shape else 0
+                        ctx.violation(f"{op}.compute/mixed/{order}/{label}", {"op": op, "a": float(sv), "b": float(vec[j])}, float(want[j]), float(r.ravel()[j]) if r.size > j else str(r.shape),
+                                      note=f"{op}: a {label} scalar {float(sv)} against the vector of grid values differs from the elementwise value at {float(vec[j])}")
     ctx.traces += len(g.emitted)
     ctx.sample({"op": g.emitted[100]["op"], "a": g.emitted[100]["a"], "b": g.emitted[100]["b"], "v": g.emitted[100]["v"]})
     ctx.extra["nan_operand_model_divergence"] = nan_div
@@ -209,5 +225,11 @@ def replay(v) -> int:
     if not (feq(got, ref) or abs(got - ref) <= 1e-12):
         print("VIOLATION property=C04 replay=(given)")
         return 1
+    for label, r in (("scalar-array", o.compute(a, np.array([b, b]))), ("array-scalar", o.compute(np.array([a, a]), b)), ("0-d", o.compute(np.array(a), np.array([b])))):
+        r = np.asarray(r, dtype=float).ravel()
+        if not all(feq(float(x), got) for x in r):
+            print(f"{c['op']} {label}: {r.tolist()} differs from the scalar value {got!r}")
+            print("VIOLATION property=C04 replay=(given)")
+            return 1
     print("formula conforms at this point (law violations need the full check)")
     return 0
